@@ -193,6 +193,39 @@ pub const NEAR: [&str; 58] = [
     "a/", "/a", "a//b", "a/b", "a/./b", "a/../b", "a\\b", "a%2Fb", "a%2fb", "%61", "%2561", "-a", "a-", "a_b", "a-b", "a.b", "ß", "ss", "SS", "ǆ", "ǅ", "Ǆ", "ﬁ", "fi", "\u{212A}", "k", "K", "a+b",
 ];
 
+/// The specification's own vocabulary of URLs: default registries of the known types (with the
+/// variations people write), VCS and download URL shapes.
+pub const SPEC_URLS: [&str; 24] = [
+    "https://crates.io", "https://crates.io/", "https://index.crates.io", "https://rubygems.org", "https://rubygems.org/", "https://repo.maven.apache.org/maven2", "https://repo.maven.apache.org/maven2/",
+    "https://repo1.maven.org/maven2", "https://registry.npmjs.org", "https://registry.npmjs.org/", "http://registry.npmjs.org", "https://www.nuget.org", "https://www.nuget.org/", "https://api.nuget.org/v3/index.json",
+    "https://pypi.org", "https://pypi.org/", "https://pypi.org/simple", "https://pypi.python.org/pypi", "https://proxy.golang.org", "https://hub.docker.com", "git+https://github.com/a/b.git@abc", "https://github.com/a/b",
+    "https://example.com/a.tar.gz", "registry.npmjs.org",
+];
+
+/// Known type names as plain type strings with a `repository_url` from the specification's vocabulary
+/// (and without one): values that only the code might treat specially.
+fn build_spec_urls_into<T: Flavor>(pool: &mut Pool<T>, types: &[&str], mk: impl Fn(&str, usize) -> Option<T>) {
+    let mut i = 0usize;
+    for ty in types {
+        for key in ["repository_url", "download_url"] {
+            for v in SPEC_URLS.iter().map(|s| Some(*s)).chain(std::iter::once(None)) {
+                i += 1;
+                let Some(pt) = mk(ty, i) else { continue };
+                let ns = if *ty == "maven" { "g" } else { "" };
+                let mut b = GenericPurlBuilder::new(pt, "n").with_namespace(ns).with_version("1");
+                let mut qs: Vec<(&str, &str)> = Vec::new();
+                if let Some(v) = v {
+                    b = b.with_qualifier(key, v).expect("valid key");
+                    qs.push((key, v));
+                }
+                if let Ok(Ok(p)) = guarded(|| b.build()) {
+                    pool.add(p, || json!({"built": {"ty": ty, "ns": ns, "name": "n", "version": "1", "subpath": "", "quals": qs}}));
+                }
+            }
+        }
+    }
+}
+
 fn build_near_into<T: Flavor>(pool: &mut Pool<T>, types: &[&str], mk: impl Fn(&str, usize) -> Option<T>) {
     let mut i = 0usize;
     for ty in types {
@@ -371,6 +404,7 @@ pub fn run(tier: Tier) -> (Acc, Vec<Value>) {
         parse_lens_into(&mut pool, &[("A1a", dn(3, 4)), ("A1b", dn(3, 4)), ("A5b", dn(3, 4)), ("A6", dn(3, 4)), ("A3", dn(3, 4)), ("A10", dn(2, 3))], None);
         build_product_into(&mut pool, &["t", "T.1+x-"], |ty, _| Some(ty.to_owned()), tier);
         build_near_into(&mut pool, &["t"], |ty, _| Some(ty.to_owned()));
+        build_spec_urls_into(&mut pool, &["cargo", "gem", "golang", "maven", "npm", "nuget", "pypi", "NPM"], |ty, _| Some(ty.to_owned()));
         // keys and types at the edge of validity (accepted only by a broken implementation; if they are
         // accepted, the resulting values must still obey C19, reflexivity included)
         for s in ["pkg:t/n?\u{212A}=v", "pkg:t/n?k=v", "pkg:t/n?K=v", "pkg:t/n?é=v", "pkg:t/n?É=v", "pkg:t/n?\u{130}=v", "pkg:\u{212A}/n", "pkg:K/n", "pkg:k/n"] {
@@ -413,6 +447,7 @@ pub fn run(tier: Tier) -> (Acc, Vec<Value>) {
         parse_lens_into(&mut pool, &[("A5b", dn(3, 4))], Some(vec!["pkg:npm/n?", "pkg:gem/n?"]));
         build_product_into(&mut pool, &["npm", "pypi", "maven"], |ty, _| <purl::PackageType as Flavor>::mk(ty), Tier::Quick);
         build_near_into(&mut pool, &["npm", "pypi", "nuget", "maven", "golang"], |ty, _| <purl::PackageType as Flavor>::mk(ty));
+        build_spec_urls_into(&mut pool, &["cargo", "gem", "golang", "maven", "npm", "nuget", "pypi"], |ty, _| <purl::PackageType as Flavor>::mk(ty));
         reps.push(check_pool(&pool, &mut acc));
     }
     reps.push(check_keys(&mut acc));
